@@ -238,25 +238,26 @@ func (h *History) CheckC12(res *Result) []Violation {
 		return nil
 	}
 	// status after the force stop: the next terminal status write must be Degraded mentioning the force stop
+	// The forced run's terminal status is the first status write that BEGINS after the force stop
+	// was issued (a start-up's own Running write aside). Its completion can be logged much later,
+	// even after a following run (the in-memory status changes when the write begins, the runner
+	// may already have issued the scripted Start): the matching completion event is looked up.
 	var term *Event
 	termIdx := -1
 	for i := call.CallIdx; i < len(h.Events); i++ {
-		e := h.Events[i]
-		if e.Kind != EvStatus {
+		b := h.Events[i]
+		if b.Kind != EvStatusBegin || strings.HasPrefix(b.Info, "Running") {
 			continue
 		}
-		if strings.HasPrefix(e.Info, "Running") {
-			// The start-up's own status write racing the force stop (the status event is
-			// logged after the write returned, the in-memory status changes before). A
-			// restart after the terminal status is caught below.
-			continue
+		for j := i + 1; j < len(h.Events); j++ {
+			e := h.Events[j]
+			if e.Kind == EvStatus && strings.HasPrefix(e.Info, b.Info) {
+				term = &h.Events[j]
+				termIdx = i // position of the forced run's end in the history
+				break
+			}
 		}
-		if strings.HasPrefix(e.Info, "Degraded") || strings.HasPrefix(e.Info, "UserStopped") || strings.HasPrefix(e.Info, "SystemStopped") ||
-			strings.HasPrefix(e.Info, "Recovering") || strings.HasPrefix(e.Info, "Running") {
-			term = &h.Events[i]
-			termIdx = i
-			break
-		}
+		break
 	}
 	if term == nil {
 		out = append(out, Violation{Prop: "C12", Key: "C12/no-terminal-status/" + eng, Index: call.RetIdx,
